@@ -1,9 +1,11 @@
 package file
 
 import (
+	"errors"
 	"io"
 	"os"
 	"sync"
+	"syscall"
 	"time"
 
 	"github.com/ozontech/file.d/pipeline"
@@ -450,4 +452,81 @@ func VerifH_C06_lz4Resume() {
 	if saved > int64(bufSize) && len(wantAfter) > 0 {
 		vf.Reach("resumed-past-skipped-data")
 	}
+}
+
+// ---- maintenance: a done job's descriptor is closed and reopened (to release deleted files) ----
+
+type verifFD struct {
+	pos    int64
+	closed bool
+}
+
+var (
+	verifFDs     map[*os.File]*verifFD
+	verifFDSize  int64
+	errVerifFile = errors.New("verif: file already closed")
+)
+
+type verifFI2 struct{ size int64 }
+
+func (f verifFI2) Name() string       { return "f" }
+func (f verifFI2) Size() int64        { return f.size }
+func (f verifFI2) Mode() os.FileMode  { return 0 }
+func (f verifFI2) ModTime() time.Time { return time.Time{} }
+func (f verifFI2) IsDir() bool        { return false }
+func (f verifFI2) Sys() any           { return &syscall.Stat_t{Ino: 7} }
+
+func verifStubStatFD(f *os.File) (os.FileInfo, error) {
+	if verifFDs[f].closed {
+		return nil, errVerifFile
+	}
+	return verifFI2{verifFDSize}, nil
+}
+func verifStubSeekFD(f *os.File, offset int64, whence int) (int64, error) {
+	fd := verifFDs[f]
+	if fd.closed {
+		return 0, errVerifFile
+	}
+	switch whence {
+	case 0:
+		fd.pos = offset
+	case 1:
+		fd.pos += offset
+	case 2:
+		fd.pos = verifFDSize + offset
+	}
+	return fd.pos, nil
+}
+func verifStubCloseFD(f *os.File) error {
+	verifFDs[f].closed = true
+	return nil
+}
+func verifStubOpenFD(name string) (*os.File, error) {
+	f := new(os.File)
+	verifFDs[f] = &verifFD{}
+	return f, nil
+}
+
+// C06.H4: the maintenance pass over a job that was read to the end of file: its descriptor is
+// reopened and reading resumes exactly where it stopped (nothing is handed over twice, nothing skipped).
+func VerifH_C06_maintenanceReopen() {
+	size := int64(vf.Int("size", 1, 1<<30))
+	verifFDSize = size
+	f := new(os.File)
+	verifFDs = map[*os.File]*verifFD{f: {pos: size}}
+	jp := verifNewProvider()
+	job := &Job{file: f, sourceID: 1, filename: "/d/f", inode: 7, curOffset: size, mu: &sync.Mutex{}, isDone: true}
+	job.tail = []byte("bb") // an unterminated tail is held back
+	jp.jobs[1] = job
+	jp.jobsDone.Inc()
+	res := jp.maintenanceJob(job)
+	if vf.Param("twin", 0) == 1 {
+		vf.Assert(job.curOffset != size, "maintenance-keeps-the-read-position")
+		return
+	}
+	vf.Assert(res == maintenanceResultNoop, "idle-job-reopened")
+	vf.Assert(job.file != f && verifFDs[f].closed && !verifFDs[job.file].closed, "descriptor-reopened")
+	vf.Assert(job.curOffset == size && verifFDs[job.file].pos == size, "maintenance-keeps-the-read-position")
+	vf.Assert(string(job.tail) == "bb", "held-back-tail-kept")
+	vf.Reach("reopened")
 }
